@@ -117,6 +117,16 @@ def sweep_workload(cfg: str, j: int, writer: str, n: int, partner: int | None) -
     }
 
 
+def preempt_workload(cfg: str, first: dict, second: dict, plan: list[int], mode: str) -> dict:
+    """Directed schedule: actor 0 runs until step plan[0], then actor 1 until plan[1] (or its end), ..."""
+    return {
+        "phases": [{"cfg": cfg, "actors": [first, second],
+                    "knobs": {"kills": 0, "errors": 0, "chunk_modes": [0], "preempt_at": plan, "pid_base": 4000,
+                              "max_steps": 20000, "mode": mode}}],
+        "fault_mode": False, "mode": mode, "preempt": plan,
+    }
+
+
 def full_phases(workload: dict) -> list[dict]:
     return list(workload["phases"]) + _verification_phases(workload["phases"])
 
@@ -241,7 +251,9 @@ class Context:
         self.options = options
         self.info = zy.ensure("H0")
         self.sweep: list[tuple] = []
+        self.preempt: list[tuple] = []
         if options.get("tier") == "thorough" and not options.get("no_sweep"):
+            self.preempt = self._preempt_items()
             self.sweep = self._sweep_items()
 
     def _sweep_items(self) -> list[tuple]:
@@ -264,12 +276,51 @@ class Context:
         items.sort(key=lambda it: (it[3], it[1], it[2]))  # low offsets of every file first
         return items
 
+    def _preempt_items(self) -> list[tuple]:
+        """Every schedule with one pre-emption (and, for colliding keys, two) of two callers of the
+        same or of colliding keys: (cfg, actor0, actor1, plan, mode)."""
+        families: dict[str, list[int]] = {}
+        for i, fam in enumerate(self.info["families"]):
+            if fam:
+                families.setdefault(fam, []).append(i)
+        lanes = core.hash_configs(self.seed, 0)
+        items = []
+        pairs = []
+        for j in range(len(self.info["pool"])):
+            pairs.append((j, j, "user", "user"))
+            if j % 3 == 0:
+                pairs.append((j, j, "legacy", "user"))
+        for members in families.values():
+            for a in members:
+                for b in members:
+                    if a != b:
+                        pairs.append((a, b, "user", "user"))
+            pairs.append((members[0], members[-1], "legacy", "user"))
+        for pi, (a, b, kind_a, kind_b) in enumerate(pairs):
+            cfg = lanes[pi % 3]
+            first = {"kind": kind_a, "calls": [{"expr": a, "dir": "shared"}]}
+            second = {"kind": kind_b, "calls": [{"expr": b, "dir": "shared"}]}
+            mode = "proc" if pi % 2 else "thread"
+            dry = execute(self.zy, self.seed, 0, preempt_workload(cfg, first, second, [10**9], mode),
+                          tag=f"-dryp{os.getpid()}")
+            steps = dry["phases"][0]["steps"]  # actor 0 to completion, then actor 1
+            for k in range(1, steps):
+                items.append((cfg, first, second, [k], mode))
+            if a != b:
+                for k1 in range(1, steps, 2):
+                    for k2 in range(k1 + 1, steps + 8, 3):
+                        items.append((cfg, first, second, [k1, k2], mode))
+        return items
+
     def run(self, r: int) -> dict:
-        if r < len(self.sweep):
-            cfg, j, writer, n, partner = self.sweep[r]
+        if r < len(self.preempt):
+            cfg, first, second, plan, mode = self.preempt[r]
+            workload = preempt_workload(cfg, first, second, plan, mode)
+        elif r < len(self.preempt) + len(self.sweep):
+            cfg, j, writer, n, partner = self.sweep[r - len(self.preempt)]
             workload = sweep_workload(cfg, j, writer, n, partner)
         else:
-            workload = generate(self.seed, r - len(self.sweep), self.info)
+            workload = generate(self.seed, r - len(self.sweep) - len(self.preempt), self.info)
         out = execute(self.zy, self.seed, r, workload)
         record = {"run": r, "violations": [], "stats": self._stats(workload, out),
                   "workload": workload if r < 3 else None}
@@ -315,13 +366,14 @@ class Context:
                       "error": sum(p["knobs"]["errors"] for p in phases)},
             "signature": core.sha([p["events_digest"] for p in out["phases"]])[:20],
             "sweep": workload.get("sweep"),
+            "preempt": workload.get("preempt"),
             "killed_at": [p.get("killed_at") for p in out["phases"] if p.get("killed_at")],
             "listing": [p["listing_digest"][:12] for p in out["phases"]],
         }
 
     def finish(self) -> dict:
         return {"pool": self.info.get("pool"), "colliding_keys_H0": self.info.get("colliding_keys"),
-                "sweep_items": len(self.sweep)}
+                "sweep_items": len(self.sweep), "preempt_items": len(self.preempt)}
 
 
 def coverage(records: list[dict], extras: list[dict], options: dict) -> dict:
@@ -357,7 +409,16 @@ def coverage(records: list[dict], extras: list[dict], options: dict) -> dict:
     for r in sweep_done:
         for k in r["stats"]["killed_at"]:
             sweep_kill_seams[k["seam"]] = sweep_kill_seams.get(k["seam"], 0) + 1
+    preempt_total = max((e.get("preempt_items", 0) for e in extras), default=0)
+    preempt_done = [r for r in records if r["stats"].get("preempt")]
     return {
+        "directed_preemption_sweep": {
+            "description": "thorough tier only: two callers of the same key, or of colliding keys (incl. a legacy writer), "
+                           "under every schedule with exactly one pre-emption point, and for colliding keys a grid of "
+                           "schedules with two; whole-buffer writes, no other fault",
+            "planned_schedules": preempt_total, "executed_schedules": len(preempt_done),
+            "complete": bool(preempt_total) and len(preempt_done) == preempt_total,
+        },
         "directed_crash_sweep": {
             "description": "thorough tier only: every scheduler step (each single byte of the pickle, and every open/stat/"
                            "mkdir/close/replace seam) of a single-writer call is used once as the kill point, for the current "
